@@ -166,6 +166,17 @@ theorem verifyVerdict_inv (s : St) (v : Ver) (h : Att s) :
     obtain ⟨c, hc⟩ := Option.isSome_iff_exists.mp a2
     simp only [verifyVerdict, hc]
     constructor <;> simp_all [Conn.live]
+  | okLost =>
+    obtain ⟨c, hc⟩ := Option.isSome_iff_exists.mp a2
+    simp only [verifyVerdict, hc]
+    split
+    · refine ⟨fun _ => ?_, by simp⟩
+      constructor <;> simp_all [finish, resolveWaiters, Conn.live]
+      intro o ho; rcases ho with ho | ⟨w, _, rfl⟩ <;> simp_all [obsOk]
+    · refine ⟨fun _ => ?_, by simp⟩
+      refine backoff_inv _ ⟨rfl, ?_, a3, by simp [a4], by simp [a5], a7, a9⟩ a6 (Or.inl a8)
+      simp only [a1, hc, Option.toList]
+      simp
   | wrongId =>
     simp only [verifyVerdict]
     split
